@@ -5,7 +5,9 @@ Design level : specs/UniqueCacheIdeal.tla is the property as a machine over "the
                specs/UniqueCache.tla models the C unique_cache (keys built from component *addresses*,
                weak-reference values, remove_dead_unique_reference at dealloc, the cycle collector's
                weakref-clear / tp_clear / dealloc phases as separate steps, malloc reusing any freed
-               address) and the Python-side model.global_cache (WeakValueDictionary with strong keys);
+               address, and the window inside ctypedescr_dealloc between PyObject_ClearWeakRefs() and
+               remove_dead_unique_reference(), where weakref callbacks of the program run and may make
+               requests) and the Python-side model.global_cache (WeakValueDictionary with strong keys);
                TLC explores every history of requests for a primitive, pointers, arrays and function
                types over 3 addresses and checks the refinement, that live cache entries never point
                to a freed or different object (the address-reuse hazard) and that components outlive
@@ -13,8 +15,9 @@ Design level : specs/UniqueCacheIdeal.tla is the property as a machine over "the
 Binding      : spec -> code: walks and a transition cover of the explored graph (atomic collection)
                are executed through _cffi_backend.new_*_type directly;  code -> spec: random histories
                of typeof() strings through several FFI objects and an out-of-line module, direct
-               backend calls, introspection, drops, reference cycles (self-referential structs,
-               containers) and gc.collect().  Objects are numbered by identity (weak-reference
+               backend calls, introspection, drops, drops with a weakref callback that rebuilds the dying
+               type inside its dealloc, reference cycles (self-referential structs, containers, cycles
+               with a finalizer that rebuilds / resurrects the ctype) and gc.collect().  Objects are numbered by identity (weak-reference
                callbacks report deaths, so a recycled id() is never confused with a live object) and
                described by introspection.  TLC validates every history against the ideal (verdicts)
                and the backend histories against the implementation model (notes).
@@ -492,7 +495,8 @@ META = {
             "of model.global_cache (WeakValueDictionary), and checks that they refine the property machine "
             "(the object asked for, same object => same type, same type => same object, rebuilt types unique) "
             "and never keep a live entry to a freed or recycled address; walks covering the explored graph are "
-            "executed through the backend constructors, random histories through several FFI objects, an "
+            "executed through the backend constructors (including requests made from weakref callbacks inside a "
+            "dying ctype's dealloc), random histories through several FFI objects, an "
             "out-of-line module, introspection, cycles and gc.collect(); TLC validates every recorded history "
             "against the property machine and the backend histories against the implementation model.",
     "note": "Trusted: TLC, CPython weak references (callbacks fire before an id() can be recycled). The "
